@@ -396,7 +396,7 @@ fn log_part(rep: &Reporter, scratch: &str) {
     }
     rep.count("systematic_rule_sets", cases.len() as u64);
     // random: 0..4 rules, all placements, 0..12 iterations
-    for _ in 0..rep.tier.pick(5_000, 40_000) {
+    for _ in 0..rep.tier.pick(5_000, 600_000) {
         let nr = rng.usize(5);
         let mut ix = 0;
         let rules: Vec<(Trig, Ext)> = (0..nr)
@@ -648,7 +648,7 @@ fn ron_of(cfg: &Configuration<P>, scratch: &str, tag: u64) -> Result<String, Str
 
 fn config_part(rep: &Reporter, scratch: &str) {
     let mut rng = SplitMix64::new(rep.seed).fork(0xC15_2);
-    let n_trees = rep.tier.pick(400, 2500);
+    let n_trees = rep.tier.pick(400, 30_000);
     for t in 0..n_trees {
         let mut budget = 2 + rng.usize(10);
         let tree = random_n(&mut rng, 0, &mut budget);
@@ -686,7 +686,7 @@ fn config_part(rep: &Reporter, scratch: &str) {
         rep.count("configuration_families", 1);
     }
     // naming and nesting: distinctive parameter values appear, in pre-order
-    for _ in 0..rep.tier.pick(100, 2000) {
+    for _ in 0..rep.tier.pick(100, 30_000) {
         rep.case();
         let a = 100 + rng.below(800) as u32;
         let b = 1 + rng.below(50) as u32;
